@@ -124,10 +124,13 @@ def defs_order_docs(tier):
 def near_closed_docs(tier):
     """contours whose last point misses the start by less / more than half a unit of the last rounded digit, at small and
     large coordinates (where a relative comparison and an absolute one disagree); relative and absolute spellings"""
-    for base in (0.0, 1e3, 1e6, 1e9):
-        for eps in (4e-1, 4e-4, 6e-4, 4e-7, 6e-7, 1e-9):
-            if base >= 1e9 and eps < 1e-4:
-                continue
+    combos = [(base, eps) for base in (0.0, 1e3, 1e6, 1e9) for eps in (4e-1, 4e-4, 6e-4, 4e-7, 6e-7, 1e-9) if not (base >= 1e9 and eps < 1e-4)]
+    # ... and a few rounding quanta off the start at coordinates of several 1e9 quanta (where 1e-9 x coordinate is a few quanta)
+    for nd in range(7):
+        q = 10.0 ** -nd
+        combos += [(f * 1e9 * q, k * q) for f in (1.2, 4.2) for k in (1.3, 2.45, 4.7, 9.3)]
+    for base, eps in combos:
+        if True:
             x0, y0 = base, 2 * base
             a = f"M{x0!r},{y0!r} L{x0 + 10!r},{y0!r} L{x0 + 10!r},{y0 + 10!r} L{x0 + eps!r},{y0 + eps * .75!r} Z"
             r = f"M{x0!r},{y0!r} l10,0 l0,10 l{-10 + eps!r},{-10 + eps * .75!r} z m20,0 h5 v5 z"
